@@ -42,6 +42,7 @@ class Ctx:
         self.max_dev = {}
         self.known = [k for k in load_known() if k.get("property") == pid and k.get("status") == "known"]
         self.quick = tier == "quick"
+        self.write_evidence = True
 
     # ---------------------------------------------------------------- TLC bookkeeping
     def add_tlc(self, name, res):
@@ -98,9 +99,10 @@ class Ctx:
         ev = {"property_id": self.pid, "tier": self.tier, "seed": self.seed, "level": self.level,
               "coverage": cov, "assumptions": self.assumptions, "wall_s": round(wall, 1),
               "violations": len(self.violations)}
-        os.makedirs(EVIDENCE, exist_ok=True)
-        with open(os.path.join(EVIDENCE, self.pid + ".json"), "w") as fh:
-            json.dump(ev, fh, indent=1, default=str)
+        if self.write_evidence:
+            os.makedirs(EVIDENCE, exist_ok=True)
+            with open(os.path.join(EVIDENCE, self.pid + ".json"), "w") as fh:
+                json.dump(ev, fh, indent=1, default=str)
         for kid, what in self.known_hits:
             print("KNOWN-FINDING: property=%s %s %s" % (self.pid, kid, what))
         for key, message, path in self.violations[:20]:
